@@ -13,8 +13,9 @@ EXPLANATION = (
     "pairwise distinct records (name, spin); a term is a list of objects, each with its index tuple and its table of "
     "allowed spin blocks (or None); get_symbols returns the record of (name, spin); `x.subs(m)` is recorded as the "
     "mapping m; Expr(0, ..) is a zero accumulator whose assumptions/target indices are recorded. "
-    "R15f: integrate_spin on 4 model expressions (18 terms: ERI, deltas, t-amplitudes, an asymmetric block table, "
-    "unknown tensors, prefactors, pure numbers) for every target spin string: the returned sum contains, for every term, "
+    "R15f: integrate_spin on 4 model expressions (22 terms: ERI, deltas, t-amplitudes, an asymmetric block table, "
+    "unknown tensors, prefactors, pure numbers, objects that carry an index twice - a block that gives such an index two "
+    "spins does not contribute) for every target spin string: the returned sum contains, for every term, "
     "exactly one substituted copy per spin assignment of ALL its indices that agrees with the target spins and gives "
     "every object an allowed block (brute force over 2^n assignments) - none missing, none twice, nothing else; "
     "accumulators start at 0 with the assumptions of the input and carry the target indices (same names, requested "
@@ -34,13 +35,11 @@ EXPLANATION = (
     "renamed to the alpha index of the same name, targets all-alpha, a clash with an existing alpha index refused. "
     "R15g: _has_valid_combination on 1728 three-tensor instances against brute force (answer, and on success a "
     "complete consistent assignment left in `variant`). R15h: allowed_spin_blocks(expr, target) on model expressions "
-    "(one term, several terms, chains of deltas, the two expressions that need real backtracking) against brute force over "
+    "(one term, several terms, chains of deltas, objects with a repeated index, the two expressions that need real backtracking) against brute force over "
     "all spin assignments; RegisteredIntermediate.allowed_spin_blocks = allowed_spin_blocks(definition on the default "
     "indices, default indices).")
 ASSUMPTIONS = [
     "models are finite: at most 12 distinct indices per term, objects with up to 6 indices, single-letter index names",
-    "objects that carry the same index twice (e.g. <ij||ij>) are outside the model domain (integrate_spin refuses them, "
-    "see the report of the hardening run)",
     "the former package-wide sweeps for shallow-copy aliasing (R15a) and unit-less folds (R15b) outside the spin "
     "integration functions were pattern matches on source spelling and are no longer performed; inside integrate_spin, "
     "allowed_spin_blocks and transform_to_spatial_orbitals their consequences are decided by evaluation",
@@ -263,12 +262,16 @@ def _families():
             ("A7", "R15a", [("d", "bc", X), ("z", "cb", X), ("X", "ia", X)]),
             ("A8", "R15f", [("I", "ij", ("ab",)), ("Y", "ja", X)]),
             ("A9", "R15f", [("d", "ij", DELTA), ("d", "jk", DELTA), ("I", "ik", ("ab", "ba")), ("Y", "ka", X)]),
+            ("A10", "R15f", [("V", "ijja", ERI)]),      # an index twice on one object: inconsistent blocks do not contribute
         ]),
         "B": ("", [
             ("B1", "R15f", [("V", "ijab", ERI), ("V", "abij", ERI)]),
             ("B2", "R15f", [("c", "", X)]),
             ("B3", "R15f", [("d", "ij", DELTA), ("f", "ji", X)]),
             ("B4", "R15b", [("f", "ij", X), ("g", "ji", X)]),
+            ("B5", "R15f", [("c", "", X), ("V", "ijij", ERI)]),
+            ("B6", "R15f", [("I", "ii", ("ab", "ba")), ("f", "jj", X)]),    # no consistent block at all: the term vanishes
+            ("B7", "R15f", [("V", "ijij", ERI), ("t2", "ijkk", t_blocks(2)), ("d", "kk", DELTA)]),
         ]),
         "C": ("ijkl", [
             ("C1", "R15f", [("V", "ijab", ERI), ("V", "abkl", ERI)]),
@@ -299,6 +302,7 @@ def r15f(ctx):
             provided = (k % 2 == 0)
             what = f"integrate_spin(family {fname}, targets {target or '-'} = {spins or '-'})"
             res = evaluate(ctx, fn, lambda W: _build_isr(W, fam, target, spins, provided), what)
+            n += len(fam)
             rets = [(o, W) for o, W in res if o.kind == "return"]
             if len(res) != 1 or len(rets) != 1:
                 ctx.bad("R15f", fn, f"{what}: the model evaluation does not return on a single path: "
@@ -319,7 +323,6 @@ def r15f(ctx):
                 else:
                     want = [subs_key(name, s) for s in assignments(indices, mobjs, fixed)]
                 missing, surplus = multiset_diff(multiset(map(repr, mine)), multiset(map(repr, want)))
-                n += 1
                 why = ""
                 if missing or surplus:
                     why = (f"{what}: term {name} = {' '.join(lab + '_' + ix for lab, ix, _ in objs)}: {len(want)} spin assignments "
@@ -338,12 +341,6 @@ def r15f(ctx):
             want_t = tuple(nm + "_" + s for nm, s in zip(target, spins)) if provided else None
             check_accumulators(ctx, "R15f", fn, what, W, accs, {"real": True, "sym_tensors": ("x",)}, want_t, f"{fname} {spins}")
     ctx.floor("R15f", "terms of the integrate_spin model evaluated", n, 90)
-    # informational (outside the decided domain): an object that carries an index twice
-    res = evaluate(ctx, fn, lambda W: dict(expr=W.expr("expr", [W.term("P", [("V", W.ix("ijij"), ERI)], ())], {"real": True}, None),
-                                           target_idx="", target_spin=""), "integrate_spin(<ij||ij>)")
-    if any(o.kind == "raise" for o, _ in res):
-        ctx.note("integrate_spin refuses an object that carries an index twice (model <ij||ij>: the ERI blocks abba/baab assign both "
-                 f"spins to one index and raise {res[0][0].exc} instead of being skipped); not decided here, reported separately")
     # input guards
     fam = _families()["A"][1][:3]
 
@@ -780,6 +777,9 @@ def r15h(ctx):
                                         ("d", "ce", DELTA)]]),
         "t2 V": ("ia", [[("t2", "ijab", t_blocks(2)), ("V", "jkbc", ERI), ("t1", "kc", t_blocks(1))]]),
         "scalar": ("", [[("V", "ijab", ERI), ("t2", "ijab", t_blocks(2))]]),
+        "repeated index": ("", [[("c", "", X), ("V", "ijij", ERI)]]),
+        "repeated index, targets": ("ia", [[("V", "ijja", ERI)], [("t2", "ijab", t_blocks(2)), ("V", "jkbk", ERI), ("d", "jb", DELTA)]]),
+        "repeated index, no block": ("ia", [[("I", "jj", ("ab", "ba")), ("d", "ia", DELTA)]]),
     }
     for key, (target, terms) in exprs.items():
         def build(W):
